@@ -3,7 +3,11 @@
 
 Used by checks/c20.py only.  A scenario is what spec/Binding.tla's history variable h records:
   {"flow": name, "present": [R?, S?], "third": ms|-1,
-   "sends": [[dev, frame kind, extra tx delay ms, [copy delays ms]], ...]}
+   "sends": [[dev, frame kind, extra tx delay ms, [copy delays ms]], ...],
+   "skew": [ms, ms]}    packet clock minus gateway clock at the respondent's / the supplicant's gateway (default 0, 0):
+                        every packet handed to that gateway (echoes, the peer's frames, third-party traffic) is stamped
+                        by a clock that differs from the gateway's own _dt_now() by this constant, as a transport whose
+                        packets carry a remote device's time does (MqttTransport: dtm = payload["ts"]), in both rounds
 """
 from __future__ import annotations
 
@@ -230,6 +234,8 @@ class Run:
                                                          schema={"orphans_hvac": list(fl["supp"])})
         self.ether.attach(self.tr)
         self.ether.attach(self.ts)
+        skew = self.sc.get("skew") or [0, 0]
+        self.tr.stamp_offset, self.ts.stamp_offset = skew[0] / 1000, skew[1] / 1000
         for dev, t in (("R", self.tr), ("S", self.ts)):  # scripted queueing delay before a frame goes out
             t.write_frame = self._delayed_write(dev, t.write_frame)  # type: ignore[method-assign]
         self.r = [d for d in self.gr.devices if d.id in fl["resp"]][0]
@@ -277,6 +283,7 @@ class Run:
         sc = self.sc
         return {"ratify": int(self.ratify), "present": [int(bool(x)) for x in sc.get("present", [1, 1])],
                 "third": sc.get("third", -1), "sends": [[s[0], s[1], s[2], list(s[3])] for s in sc.get("sends", [])],
+                "skew": list(sc.get("skew") or [0, 0]),
                 "obs": self.obs, "pred": pred or [], "predfix": predfix or []}
 
 
